@@ -7,6 +7,7 @@ import (
 	"time"
 
 	"github.com/couchbase/moss"
+	vs "vsched"
 )
 
 // C12 - history can be walked back and reverted to exactly (store-direct explicit enumeration).
@@ -26,13 +27,14 @@ type c12Job struct {
 }
 
 type c12Res struct {
-	Runs     int            `json:"runs"`
-	Walks    int            `json:"walks"`
-	Reverts  int            `json:"reverts"`
-	Outcomes map[string]int `json:"outcomes"`
-	Viols    []Violation    `json:"viols,omitempty"`
-	Sample   string         `json:"sample,omitempty"`
-	Infra    string         `json:"infra,omitempty"`
+	Runs      int            `json:"runs"`
+	Walks     int            `json:"walks"`
+	Reverts   int            `json:"reverts"`
+	PowerCuts int            `json:"power_cuts"`
+	Outcomes  map[string]int `json:"outcomes"`
+	Viols     []Violation    `json:"viols,omitempty"`
+	Sample    string         `json:"sample,omitempty"`
+	Infra     string         `json:"infra,omitempty"`
 }
 
 func init() {
@@ -112,6 +114,9 @@ func (w *World) compactions() int {
 
 // c12One: rounds, then walk, then (optionally) revert to walk entry `target`, then continuation `cont`.
 func c12One(cfg Config, seq []int, target, cont int, res *c12Res) *Violation {
+	if !cfg.NoSync {
+		cfg.VFS = true // record writes and syncs: "durable" is also checked against a power cut right after the revert
+	}
 	w := NewWorld(cfg, c12Alpha)
 	defer w.Teardown()
 	w.probes = []string{"a", "b", "c", "x", "y", "z"}
@@ -238,6 +243,29 @@ func c12One(cfg Config, seq []int, target, cont int, res *c12Res) *Violation {
 	_, d := w.storePrefix()
 	if d == nil || d.String() != want.dump {
 		return &Violation{Prop: "C12", Sig: "revert-not-current|revert|any", Msg: fmt.Sprintf("%s: after SnapshotRevert the store exposes %s, wanted %s", where, d, want.dump)}
+	}
+	if w.vfs != nil {
+		// the machine stops right after SnapshotRevert returned and every write that was not followed by a sync is lost
+		ds := newDiskState()
+		for _, o := range w.vfs.Ops {
+			ds.apply(o)
+		}
+		dir, err := writeImage(image{files: ds.baseImage()})
+		if err != nil {
+			os.RemoveAll(dir)
+			res.Infra = err.Error()
+			return nil
+		}
+		dump, oerr, _ := openImage(cfg, dir, w.probes) // runs under a scheduler of its own
+		vs.S = w.s
+		os.RemoveAll(dir)
+		res.PowerCuts++
+		if oerr != "" {
+			return &Violation{Prop: "C12", Sig: "revert-not-durable|power-cut-unopenable|any", Msg: fmt.Sprintf("%s: the directory as a power cut right after SnapshotRevert returned would leave it cannot be opened: %s", where, oerr)}
+		}
+		if dump.String() != want.dump {
+			return &Violation{Prop: "C12", Sig: "revert-not-durable|power-cut|any", Msg: fmt.Sprintf("%s: SnapshotRevert returned, but after a power cut (unsynced writes lost) the directory shows %s, wanted the reverted content %s", where, dump, want.dump)}
+		}
 	}
 	w.models = w.models[:want.model+1]
 	reopenCheck := func(what string) *Violation {
@@ -395,6 +423,7 @@ func checkC12(prop, tier string) int {
 		tot.Runs += cr.Runs
 		tot.Walks += cr.Walks
 		tot.Reverts += cr.Reverts
+		tot.PowerCuts += cr.PowerCuts
 		for k, v := range cr.Outcomes {
 			tot.Outcomes[k] += v
 		}
@@ -419,13 +448,14 @@ func checkC12(prop, tier string) int {
 			"traces_validated_against_impl": tot.Runs,
 			"evaluations":                   tot.Runs,
 			"distinct_nontrivial":           len(tot.Outcomes),
-			"rule":                          "every sequence of 1..R persistence rounds over a 4-batch alphabet (top-level and child-collection writes and deletes) x every revert target of the walk (including none) x 4 continuations (reopen; one more round then reopen; walk again; revert again), on the real store under the controlled scheduler; the walk must yield exactly the contents exposed after each round since the last compaction, newest first, then nil; after a revert: current == target, reopen == target, next round builds on it; walks after a revert use the relaxed oracle of DESIGN.md 4.12",
+			"rule":                          "every sequence of 1..R persistence rounds over a 4-batch alphabet (top-level and child-collection writes and deletes) x every revert target of the walk (including none) x 4 continuations (reopen; one more round then reopen; walk again; revert again), on the real store under the controlled scheduler; the walk must yield exactly the contents exposed after each round since the last compaction, newest first, then nil; after a revert: current == target, the directory a power cut right after the revert would leave (every unsynced write lost; synchronous configurations) opens to the target, reopen == target, next round builds on it; walks after a revert use the relaxed oracle of DESIGN.md 4.12",
 			"samples":                       samples,
 			"exhaustive":                    infra == 0,
 			"max_rounds":                    maxR,
 			"sequences":                     len(seqs),
 			"walks":                         tot.Walks,
 			"reverts":                       tot.Reverts,
+			"power_cut_images_after_revert": tot.PowerCuts,
 			"outcomes":                      tot.Outcomes,
 			"infrastructure_errors":         infra,
 		}})
